@@ -282,6 +282,9 @@ class ChargeInfo:
         if charges is None:
             return np.zeros((self.qnumber,), dtype=QTYPE)
         charges = np.array(charges, dtype=QTYPE)  # copy: never write into the argument
+        if charges.ndim != 1 and charges.ndim != 2:  # same argument checks as the compiled version
+            raise ValueError('wrong dimension of charges ' + str(charges))
+        assert charges.shape[-1] == self._qnumber, "qnumber of `charges` doesn't match chinfo.qnumber"
         charges[..., self._mask] = np.mod(charges[..., self._mask], self._mod_masked)
         return charges
 
